@@ -557,13 +557,15 @@ Theorem reduce_classes_spec all :
     /\ (forall y, In y (c_attrs c) -> exists ry, In ry (c_attrs r) /\ key ry = key y /\ dominates_c ry y)
     /\ (forall ry, In ry (c_attrs r) -> ~ In (key ry) (keys (c_attrs c)) -> a_min ry = 0)
     /\ (forall ry, In ry (c_attrs r) -> exists c' y, In c' all /\ c_qname c' = c_qname c /\ In y (c_attrs c') /\ key y = key ry)
-    /\ (exists f, In f all /\ c_qname f = c_qname c /\ c_ns r = c_ns f)
+    /\ (exists f, In f all /\ c_qname f = c_qname c
+                 /\ (c_ns r = c_ns f \/ (c_ns f = None /\ c_ns r = Some []))
+                 /\ (c_ns r = None -> c_ns c <> Some []))
     /\ (c_nillable c = true -> c_nillable r = true).
 Proof.
   intros ND c Hc. destruct (group_by_spec all) as [G1 [G2 G3]].
   destruct (G3 c Hc) as [g [Hg Hcg]]. destruct (G2 _ _ Hg) as [Hne Hq].
   destruct g as [|f g']; [contradiction|]. set (g := f :: g') in *.
-  set (r := mk_fclass (c_qname f) (c_ns f) (existsb c_mixed g) (existsb c_nillable g)
+  set (r := mk_fclass (c_qname f) (group_ns g f) (existsb c_mixed g) (existsb c_nillable g)
                       (map cleanup_attr (reduce_attributes (map c_attrs g)))).
   assert (Hr : In r (reduce_classes all)).
   { unfold reduce_classes. apply in_flat_map. exists (c_qname c, g). split; [exact Hg|]. cbn. left. reflexivity. }
@@ -583,6 +585,13 @@ Proof.
   - intros ry Hry. cbn in Hry. apply in_map_iff in Hry as [r0 [<- H0]].
     destruct (R4 r0 H0) as [l [y [Hl [Hy Ky]]]]. apply in_map_iff in Hl as [c' [<- Hc']].
     exists c', y. destruct (Hq c' Hc') as [Q1 Q2]. repeat split; auto.
-  - exists f. destruct (Hq f (or_introl eq_refl)) as [Q1 Q2]. repeat split; auto.
+  - exists f. destruct (Hq f (or_introl eq_refl)) as [Q1 Q2]. split; [exact Q2|]. split; [exact Q1|].
+    change (c_ns r) with (group_ns g f). unfold group_ns. split.
+    + destruct (c_ns f) as [u|]; [left; reflexivity|].
+      destruct (existsb (fun c0 => match c_ns c0 with Some [] => true | _ => false end) g); [right; auto|left; reflexivity].
+    + destruct (c_ns f) as [u|]; [discriminate|].
+      destruct (existsb (fun c0 => match c_ns c0 with Some [] => true | _ => false end) g) eqn:Ex; [discriminate|].
+      intros _ Hc0. assert (existsb (fun c0 => match c_ns c0 with Some [] => true | _ => false end) g = true); [|congruence].
+      apply existsb_exists. exists c. split; [exact Hcg|]. rewrite Hc0. reflexivity.
   - intros Hn. change (existsb c_nillable g = true). apply existsb_exists. exists c. auto.
 Qed.
